@@ -1,7 +1,7 @@
 """Helpers shared by the rule modules."""
 from fractions import Fraction
 from sa import guards as G
-from sa.sym import SELF, contains, is_const, pretty, walk, root_field, is_heap_path, mk_cmp, mk_not, mk_bool
+from sa.sym import SELF, contains, is_const, pretty, walk, root_field, is_heap_path, mk_cmp, mk_not, mk_bool, mk_bin
 from sa.model import AnalysisError, EnumVal
 from sa.paths import runs_of
 
@@ -429,6 +429,7 @@ def _canon_pgn(ctx, func, run):
     MID = ("call", ("clsref", "MessageId"), (), (("can_id", ("p", "can_id")),))
     PGNF = ("attr", MID, "parameter_group_number")
     PG = ("call", ("clsref", "ParameterGroupNumber"), (), ())
+    run = _canon_pgn_value(ctx, run, PG)
     cands = set()
     for rec in run.recs:
         syms = ([rec.cond] if rec.cond is not None else []) + [x for e in rec.effects for x in (e.target, e.value) if isinstance(x, tuple)]
@@ -463,6 +464,66 @@ def _canon_pgn(ctx, func, run):
             if isinstance(e.value, tuple):
                 e.value = G.subst(e.value, fn)
     run.pgn_from_mid = True
+    return run
+
+
+def _canon_pgn_value(ctx, run, PG):
+    """arithmetic on the numeric value of the received frame's PGN object (divmod(pgn.value, 256), pgn.value % 256, (pgn.value // 256) << 8 ...)
+    is rewritten to the two spellings the notify rules read - pgn.pdu_specific and pgn.value & 0x1FF00 - when the known-bits domain
+    proves them equal (the value getter is evaluated on an object with symbolic data page / PF / PS of their constructor widths)"""
+    from sa.bits import BV, BitEval
+    from sa.objeval import Obj
+    VAL = ("attr", PG, "value")
+    if not any(contains(x, VAL) for rec in run.recs for x in ([rec.cond] if rec.cond is not None else []) +
+               [y for e in rec.effects for y in (e.target, e.value) if isinstance(y, tuple)]):
+        return run
+    cache = ctx.__dict__.setdefault("_pgn_value_bits", {})
+    if "v" not in cache:
+        try:
+            o = Obj(ctx.prog, "ParameterGroupNumber", {"data_page": ("p", "dp"), "pdu_format": ("p", "pf"), "pdu_specific": ("p", "ps")})
+            be0 = BitEval(lambda s_: BV.input(s_[1], {"dp": 1, "pf": 8, "ps": 8}[s_[1]]) if s_[0] == "p" and s_[1] in ("dp", "pf", "ps") else None)
+            cache["v"] = be0.ev(o.get("value"))
+        except (AnalysisError, KeyError):
+            cache["v"] = None
+    vb = cache["v"]
+    if vb is None or vb.has_top():
+        return run
+    be = BitEval(lambda s_: vb if s_ == VAL else None)
+    ps_bits = [("b", "ps", i) for i in range(8)]
+    hi_bits = [0] * 8 + [("b", "pf", i) for i in range(8)] + [("b", "dp", 0)]
+    PS, HI = ("attr", PG, "pdu_specific"), mk_bin("&", ("c", 0x1FF00), VAL)
+
+    def fn(x):
+        if x[0] == "bin" and contains(x, VAL) and x != HI:
+            try:
+                bv = be.ev(x)
+                BitEval.pop_lossy()
+            except AnalysisError:
+                return None
+            if bv.has_top() or bv.width() is None:
+                return None
+            if bv.width() <= 8 and bv.window(0, 8) == ps_bits:
+                return PS
+            if bv.width() <= 17 and bv.window(0, 17) == hi_bits:
+                return HI
+        return None
+
+    def top_down(s_):
+        # outermost arithmetic node first (subst is bottom-up and would rewrite the operands before the whole)
+        if not isinstance(s_, tuple) or not s_:
+            return s_
+        r_ = fn(s_) if isinstance(s_[0], str) else None
+        if r_ is not None:
+            return r_
+        return tuple(top_down(y) if isinstance(y, tuple) else y for y in s_)
+    for rec in run.recs:
+        if rec.cond is not None and contains(rec.cond, VAL):
+            rec.cond = G.renorm(top_down(rec.cond))
+        for e in rec.effects:
+            if isinstance(e.target, tuple) and contains(e.target, VAL):
+                e.target = top_down(e.target)
+            if isinstance(e.value, tuple) and contains(e.value, VAL):
+                e.value = top_down(e.value)
     return run
 
 
